@@ -188,10 +188,10 @@ func renderPreformatted(w io.Writer, node *html.Node) {
 	for c := node.FirstChild; c != nil; c = c.NextSibling {
 		switch c.Type {
 		case html.TextNode:
-			if shouldEscapeTextNode(c.Data) {
-				_, _ = w.Write([]byte(html.EscapeString(c.Data)))
-			} else {
+			if node.Data == "script" || node.Data == "style" || isRawTextBody(node.Data, c.Data) || !shouldEscapeTextNode(c.Data) {
 				_, _ = w.Write([]byte(c.Data))
+			} else {
+				_, _ = w.Write([]byte(html.EscapeString(c.Data)))
 			}
 		case html.ElementNode:
 			// evaluated v-html / v-text content is stored in internal attributes
